@@ -272,28 +272,33 @@ class DataConnection(Connection, abc.ABC):
         if self.state in (ConnectionState.CLOSED, ConnectionState.CLOSING):
             return
 
-        await self.set_state(ConnectionState.CLOSING, close_reason=reason)
-        adapter.debug("disconnecting : %s", reason.name, extra=self.__dict__)
-        self._cancel_queued_messages()
         try:
-            if self._writer is not None:
-                if not self._writer.is_closing():
-                    self._writer.close()
-
-                async with atimeout(DISCONNECT_TIMEOUT):
-                    await self._writer.wait_closed()
-
-        except Exception as exc:
-            adapter.warning(
-                "exception while disconnecting : %r", exc, extra=self.__dict__)
+            await self.set_state(ConnectionState.CLOSING, close_reason=reason)
 
         finally:
-            await self.set_state(ConnectionState.CLOSED, close_reason=reason)
-            # Because disconnect can be called when read failed setting the
-            # reader task to none should be done last
-            self._reader_task = None
-            self._reader = None
-            self._writer = None
+            # Also when the task got cancelled while the listeners were being
+            # notified: a connection that is CLOSING always gets closed
+            adapter.debug("disconnecting : %s", reason.name, extra=self.__dict__)
+            self._cancel_queued_messages()
+            try:
+                if self._writer is not None:
+                    if not self._writer.is_closing():
+                        self._writer.close()
+
+                    async with atimeout(DISCONNECT_TIMEOUT):
+                        await self._writer.wait_closed()
+
+            except Exception as exc:
+                adapter.warning(
+                    "exception while disconnecting : %r", exc, extra=self.__dict__)
+
+            finally:
+                await self.set_state(ConnectionState.CLOSED, close_reason=reason)
+                # Because disconnect can be called when read failed setting the
+                # reader task to none should be done last
+                self._reader_task = None
+                self._reader = None
+                self._writer = None
 
     def start_reader_task(self):
         """Starts the message reader task"""
